@@ -366,11 +366,17 @@ Definition list_range_cmd (o_max o_min o_list : obj) : Res value :=
   | _, _, _ => Err InvalidState (T "Expected List, minimum and maximum for LIST_RANGE")
   end.
 
-(* LIST_RANDOM, given the u32 draw: sort by value only (descending, stable),
+(* LIST_RANDOM, given the u32 draw: sort by value only (descending, stable; TieTotal:
+   by `cmp_entries` descending),
    index = draw % len; sorted[index] is a slice index (always in range for a
    permutation oracle); `get_origin_name().unwrap()` control_logic.rs:548 *)
-Definition list_random_pick_o (defs : listdefs) (l : inklist) (next_random : Z) : Res inklist :=
-  let sorted := sort_by (fun a b : listitem * Z => Z.compare (snd b) (snd a)) (ord_items oo (l_items l)) in
+Definition random_sort_cmp (tb : tie_break) (a b : listitem * Z) : comparison :=
+  match tb with
+  | TieIteration => Z.compare (snd b) (snd a)
+  | TieTotal => entry_cmp b a
+  end.
+Definition list_random_pick_tb (tb : tie_break) (defs : listdefs) (l : inklist) (next_random : Z) : Res inklist :=
+  let sorted := sort_by (random_sort_cmp tb) (ord_items oo (l_items l)) in
   let idx := next_random mod Z.of_nat (length (l_items l)) in
   match nth_error sorted (Z.to_nat idx) with
   | None => Panic (T "control_logic.rs:546")
@@ -384,6 +390,7 @@ Definition list_random_pick_o (defs : listdefs) (l : inklist) (next_random : Z) 
           end
       end
   end.
+Definition list_random_pick_o := list_random_pick_tb tie_break_now.
 
 Section Rng.
 (* first u32 draw of StdRng::seed_from_u64(seed as u64) for an i32 seed *)
